@@ -635,8 +635,11 @@ def behaviour_replay(exe, d, tier, max_paths=1200, scans=False):
         s.name for s in cat.values() if usable(s, scans) and len(s.init) <= (60 if scans else 17)
         and (len(s.progs) == 2 and sum(len(p) for p in s.progs) <= (3 if tier == "quick" else 4))]
     if scans and tier == "quick" and "only" not in REPLAY_SCENARIOS:
-        # the largest graphs (collapse under every scan kind) are left to the thorough tier except for scan()
-        names = [n for n in names if "_vs_collapse" not in n or n.startswith("scan_sf_") or n.startswith("scan_sr_")]
+        # quick tier: scanner + ONE writer operation (graphs of 10^3..10^4 states) plus a few two-operation writers;
+        # the rest (collapse under every scan kind, two-operation writers: 2*10^4 states each) in the thorough tier
+        keep3 = {"reseek_two_commits_fwd", "scan_sf_vs_collapse", "scan_sr_vs_collapse", "scan_fwd_inplace_ins_earlier",
+                 "scan_fwd_i48_vs_rem", "reseek_vs_inplace_ins"}
+        names = [n for n in names if sum(len(p) for p in cat[n].progs) <= 2 or n in keep3]
     K = 2 if tier == "quick" else 1000000
     if tier != "quick":
         max_paths = 40000
